@@ -479,13 +479,13 @@ fn ct_case(op: Arc<Op>) -> impl Fn(&mut Tape, &mut Case) -> CaseResult {
 fn cases_for(op: &Op) -> u64 {
     let limbs: usize = op.secret.iter().map(|a| a.limbs()).max().unwrap_or(1);
     let base: u64 = match op.family {
-        "limb" => 1200,
-        "monty-pow" => 16,
+        "limb" => 4000,
+        "monty-pow" => 40,
         "safegcd" => 24,
-        "monty-params" => 100,
-        "uint-sqrt" | "boxed-sqrt" | "uint-div" | "boxed-div" | "int-div" => 180,
-        "uint-inv2k" | "boxed-inv2k" => 60,
-        _ => 360,
+        "monty-params" => 250,
+        "uint-sqrt" | "boxed-sqrt" | "uint-div" | "boxed-div" | "int-div" => 500,
+        "uint-inv2k" | "boxed-inv2k" => 150,
+        _ => 1000,
     };
     let scale = if limbs >= 32 { 8 } else if limbs >= 8 { 3 } else { 1 };
     (base / scale).max(3)
